@@ -64,10 +64,15 @@ fn main() {
     let ctx = Ctx::from_env("C14");
     set_checker(checker);
     if let Some(r) = ctx.replay_request() {
+        if r["leg"].as_str().map(|l| l.starts_with("uplinks")).unwrap_or(false) {
+            asys::uplinks::replay(&ctx, r);
+            ctx.finish("model_checking", "replay");
+        }
         replay(&ctx, r);
         ctx.finish("model_checking", "replay");
     }
     let quick = ctx.quick();
+    asys::uplinks::run(&ctx, "uplinks-bfs-supply", if quick { 6 } else { 8 }, |m| m.contains("supply") || m.contains("terminates") || m.contains("one_writer"));
     let sc = scripts(quick);
     let modes = [Mode::Eager, Mode::Burst, Mode::SlowRead];
     let cfgs = grid(&sc, &[8, 16, 4096], &[2, 3, 64], &modes, &[0, 5]);
